@@ -288,7 +288,21 @@ def run_history(ctx, k, L):
                  lambda: g.merge(h, reset_index=ri, reset_time_support=rs),
                  post=lambda r, g0=g: merge_oracle(ctx, "g.merge(h)", r, [g0, h], ri, rs, inp))
         elif c == 7 and ks:
-            push("to_tsd.to_tsgroup", "Y", lambda: g.to_tsd().to_tsgroup())
+            def rt_oracle(r, g0=g):
+                # pooled: as many samples as the members hold together; split again: every member with samples keeps its timestamps
+                gs_, ge_ = iset_ns(g0.time_support)
+                inside = lambda t: any(a_ <= t <= b_ for a_, b_ in zip(gs_, ge_))
+                if any(not inside(t) for x in g0.keys() for t in ns_arr(g0[x].t)):
+                    return          # a bypass_check group whose members reach outside the group support: the caller opted out
+                n_tot = sum(len(g0[x]) for x in g0.keys())
+                if len(g0.to_tsd()) != n_tot:
+                    ctx.fail("oracle", "to_tsd holds %d samples, the members hold %d (coincident spikes of different members are distinct samples)" %
+                             (len(g0.to_tsd()), n_tot), dict(inp))
+                for x in g0.keys():
+                    if len(g0[x]) and (x not in list(r.keys()) or ns_arr(r[x].t) != ns_arr(g0[x].t)):
+                        ctx.fail("oracle", "to_tsd -> to_tsgroup changed the timestamps of member %d" % x, dict(inp),
+                                 impl=ns_arr(r[x].t) if x in list(r.keys()) else None, expected=ns_arr(g0[x].t))
+            push("to_tsd.to_tsgroup", "Y", lambda: g.to_tsd().to_tsgroup(), post=rt_oracle)
         elif c == 8 and ks:
             # group-level operations equal the per-member results (oracle only)
             ep = iset([0], [32], SC)
